@@ -25,11 +25,22 @@ PROP = dict(
           "extended alphabet adds size-0 inserts, touch with a new size, change_size, clear), complete up to L=4 (quick) / 5 "
           "(thorough) and up to L=6/7 minus the histories that hold a throwing no-op (absent-key touch/change_size/lookup, evict "
           "on empty) before their last operation, which are state-equivalent to a shorter enumerated history (counted under "
-          "`excluded`). Random: rapidcheck histories of 1..400 operations over 1..8 (sometimes 40) keys, sizes {0,1,2,7}, "
-          "new_size {-1,0,1,2,7}, operations on both instances and swaps between them. Non-trivial: a history in which, with >= 2 "
+          "`excluded`); plus every history of length 1..3 (thorough 4; 1..4/5 minus interior no-ops) over the 'extreme-sizes' alphabet (sizes "
+          "1, 2, 2^63, 2^63+1, SIZE_MAX on new and existing keys through insert/emplace/change_size, touch with SSIZE_MAX, evict, clear). "
+          "Random: rapidcheck histories of 1..400 operations over 1..8 (sometimes 40) keys, sizes {0,1,2,7}, "
+          "new_size {-1,0,1,2,7}, operations on both instances and swaps between them; a quarter of the histories draw a fifth of their "
+          "sizes from the corners of size_t / ssize_t (2^63, 2^63+1, 2^63+2^32, 3*2^62, SIZE_MAX-7..SIZE_MAX, 2^63-1, 2^63-2, 2^62, 2^32, "
+          "2^32-1, 2^31; touch: SSIZE_MAX, SSIZE_MAX-1, 2^62, 2^32, 2^31) on insert/emplace/touch/change_size of new and existing keys; "
+          "one history in 40 runs over a universe of 60..200 keys: a build-up phase puts 60..150 distinct keys into one instance (several "
+          "rehashes of the hash table, nothing removed), then the usual mix with clear() twice as likely continues for up to 150 operations. "
+          "Non-trivial: a history in which, with >= 2 "
           "live keys, an operation moved an existing key to the front from a non-front position and a later erase or eviction "
           "succeeded. Distinct = distinct histories (hash of the operation words per container type)."),
-    assumptions=["single-threaded use", "sizes small enough that total_size does not overflow size_t",
+    assumptions=["single-threaded use",
+                 "sizes are arbitrary size_t values (ssize_t >= -1 for touch's new_size; what other negative values mean is not documented and "
+                 "they are not generated); size() is compared with the model's sum in every state in which that sum is representable in "
+                 "size_t, and is not compared in states where it is not (counted under the class 'states-with-unrepresentable-sum'); item sizes, "
+                 "peek/evict sizes and everything else are compared in every state",
                  "evict_object()/peek() on an empty container and at()/item_size() of an absent key throw std::out_of_range (what the code documents); no other behaviour is specified for them",
                  "emplace on an existing key changes nothing (value, size and recency stay), like std::unordered_map::emplace",
                  "the exhaustive enumerator compares the full state only after the last operation of each history: the state after "
